@@ -1,0 +1,29 @@
+//go:build !verif
+// +build !verif
+
+package nitro
+
+import "unsafe"
+
+// Verification yield points (see verif_on.go). Without the "verif" build tag
+// they compile to nothing.
+const (
+	vpGCSend = iota
+	vpGCListBegin
+	vpGCListEnd
+	vpFreeListBegin
+	vpFreeListEnd
+	vpSnapOpenMid
+	vpSnapCloseDec
+	vpSnapCloseMoved
+	vpGCLocked
+	vpGCUnlocked
+	vpDelNodeEntry
+	vpDelNodeCAS
+	vpDelNodeAppend
+	vpDelNodeFlush
+	vpGetNodeRet
+	vpPutInsert
+)
+
+func verifYield(pt int, m *Nitro, a, b unsafe.Pointer) {}
